@@ -79,6 +79,18 @@ def scenarios(tier):
     L.append((SC.scn("make-parent-takes-the-handed-back-token-then-failure-n1", mwf,
                      [{"name": "T0", "argv": ["redo", "--no-log", "x"], "env": {"MAKEFLAGS": ""}}, {"name": "T1", "argv": ["redo-ifchange", "b"]}],
                      visible=VIS, jobserver=1, limit=2, log_mode=True, no_cheatfds=True, make_player=1, may_fail=True), 1 if q else 2))
+    # a `make -j2` in the MIDDLE (redo -> script -> make -j2 -> +redo-ifchange z): the inner redo joins make's token pipe; the
+    # cheat pipe it finds in its environment belongs to the redo ABOVE make and is none of its business.  z is locked by an
+    # independent redo; the inner redo hands its slot back to make, make starts another recipe on it; when z is free make's
+    # pipe is empty (until that recipe ends): the inner redo may borrow a slot (the log viewer follows it).  When all is over
+    # make must find its N-1 tokens, and the outer redo its own.
+    mm = World("make-in-the-middle", {"s": ["0", "1"]},
+               {"z.do": [S(deps=["s"], sync=(("start", "set", "z-started"), ("mid", "wait", "make-took"), ("end", "set", "make-release")))],
+                "m.do": [S(seq=(("make-j2", ("z",)),), sync=(("start", "wait", "z-started"),))]},
+               ["z", "m"], ["m"])
+    L.append((SC.scn("make-in-the-middle-j2", mm,
+                     [{"name": "T0", "argv": ["redo", "--no-log", "z"], "env": {"MAKEFLAGS": ""}}, {"name": "T1", "argv": ["redo", "-j2", "m"]}],
+                     visible=VIS, limit=3, log_mode=True), 1 if q else 2))
     L.append((SC.scn("make-failshared-n2", w["failshared"], ["redo-ifchange a b"], visible=VIS, jobserver=2, limit=2, may_fail=True,
                      no_cheatfds=True, make_player=1), 1 if q else 2))
     L.append((SC.scn("make-log-failshared-n2", w["failshared"], ["redo-ifchange a b"], visible=VIS, jobserver=2, limit=2, may_fail=True,
@@ -168,6 +180,13 @@ def oracle(scn, res):
             d = dict(x.split("=") for x in detail.split(" "))
             if int(d["tokens"]) - int(d["cheats"]) != int(d["expect"]):
                 out.append(({"kind": "toplevel-token-count-wrong", "scenario": scn["name"], "detail": detail}, {}))
+    # a make in the middle counts its tokens when it exits (shim/rvmake writes `M <found> <expected>`)
+    for l in res["trace"]:
+        if l.startswith("M "):
+            _m, found, expected = l.split(" ")
+            if found != expected:
+                out.append(({"kind": "make-in-the-middle-ends-with-wrong-token-count", "scenario": scn["name"], "found": int(found),
+                             "expected": int(expected)}, {"roots": res["roots"], "stderr": res["stderr"].get("T1", "")[-500:]}))
     js = res.get("jobserver")
     if js:
         if js["tokens_left"] != js["initial_tokens"]:
